@@ -262,6 +262,88 @@ def temp_sequences():
     return guarded("temps/sequences", run)
 
 
+def statement_independence():
+    """through the real convert(): the translation of `F:G` on one line is the translation of F followed by the translation of G,
+    for every ordered pair of statement forms (hoisted calls stay with their own statement, temporaries restart per statement,
+    nothing leaks from one statement into its neighbour).  Forms whose meaning spans statements (IF..THEN rest-of-line, FOR/NEXT
+    pairing, DATA/READ, DIM, comments) are left to their own obligations."""
+    import itertools
+    from coco.b09.compiler import convert
+    from tx.p_c08 import FORMS
+    from tx.tier import pick
+
+    def run():
+        THOROUGH_ALL = pick(False, True)
+        forms = sorted({f.replace("{_}", "").replace("{+}", " ") for f in FORMS})
+        forms = [f for f in forms if not f.startswith(("IF", "ON ERR", "ON BRK", "DATA", "READ", "NEXT", "FOR", "REM", "'", "DIM", "CLEAR")) and "GOTO" not in f
+                 and "GOSUB" not in f and "THEN" not in f]
+        # ... and statement forms with a convertible function in an operand position (something is hoisted in front of them)
+        import re as _re
+        from tx.p_c04 import ROWS
+        hoisting = []
+        for t in sorted({t for _, t, _, _ in ROWS if "{e}" in t}) + ["A1={e}+1", "A1({e})=2", "PRINT {e}", "POKE {e},{e}", "ON {e} GOSUB 10", "A1$=STR$({e})+\"x\"", "WIDTH {e}"]:
+            k = [0]
+
+            def sub(m):
+                k[0] += 1
+                return "INT(Q9)" if k[0] == 1 else ("B%d" % k[0] if m.group(1) == "e" else "C%d$" % k[0])
+            hoisting.append(_re.sub(r"\{(e|s)\}", sub, t))
+        plain = forms[:pick(25, len(forms))]
+        forms = plain + hoisting
+
+        def body(src):
+            try:
+                t = convert("10 %s\n" % src, add_standard_prefix=False, initialize_vars=False, add_suffix=False)
+            except Exception:  # noqa  (refused forms are C15's business)
+                return None
+            lines = t.rstrip("\n").split("\n")
+            k = next((i for i, l in enumerate(lines) if l.startswith("10 ")), None)
+            if k is None:
+                return None
+            b = lines[k:]
+            b[0] = b[0][3:]
+            return b
+        single = {f: body(f) for f in forms}
+        bad, n = [], 0
+        pairs = list(itertools.product(forms, forms)) if THOROUGH_ALL else [(f, g) for f, g in itertools.product(forms, forms) if f in plain or g in plain]
+        for f, g in pairs:
+            n += 1
+            r = body(f + ":" + g)
+            if single[f] is None or single[g] is None:
+                if r is not None:
+                    bad.append(dict(source="%s:%s" % (f, g), problem="converted although %r alone is not" % (f if single[f] is None else g)))
+                continue
+            if r != single[f] + single[g]:
+                bad.append(dict(source="%s:%s" % (f, g), got=r, expected=single[f] + single[g]))
+        # the same across lines: two lines translate to the two translations (labels aside)
+        def body2(f, g):
+            try:
+                t = convert("10 %s\n20 %s\n" % (f, g), add_standard_prefix=False, initialize_vars=False, add_suffix=False)
+            except Exception:  # noqa
+                return None
+            lines = t.rstrip("\n").split("\n")
+            k = next((i for i, l in enumerate(lines) if l.startswith("10 ")), None)
+            j = next((i for i, l in enumerate(lines) if l.startswith("20 ")), None)
+            if k is None or j is None:
+                return None
+            a, b = lines[k:j], lines[j:]
+            a[0], b[0] = a[0][3:], b[0][3:]
+            return a, b
+        bad2, n2 = [], 0
+        for f, g in pairs:
+            if single[f] is None or single[g] is None:
+                continue
+            n2 += 1
+            r = body2(f, g)
+            if r != (single[f], single[g]):
+                bad2.append(dict(lines=[f, g], got=r, expected=(single[f], single[g])))
+        extra = [ob("independence/two lines translate to their two translations", not bad2 and n2 > 1000, "for all %d ordered pairs" % n2, bad2[:3] or "%d pairs" % n2,
+                    bounded="%d ordered pairs of lines" % n2)]
+        return extra + [ob("independence/translation of F:G = translation of F, then of G", not bad and n > 1000, "for all %d ordered pairs" % n, bad[:3] or "%d pairs" % n,
+                   bounded="%d ordered pairs over %d statement forms (%d of them with a hoisted call)" % (n, len(forms), len(hoisting)))]
+    return guarded("independence", run)
+
+
 def tree_shared_with_c04():
     from tx.p_c04 import parser_builds_a_tree
     return parser_builds_a_tree()
@@ -307,4 +389,4 @@ def calls_per_occurrence():
 
 
 def obligations():
-    return patcher_steps() + temp_freshness() + temp_sequences() + calls_per_occurrence() + tree_shared_with_c04() + replacement_protocol() + print_patcher() + ownership_order()
+    return patcher_steps() + temp_freshness() + temp_sequences() + calls_per_occurrence() + tree_shared_with_c04() + statement_independence() + replacement_protocol() + print_patcher() + ownership_order()
